@@ -20,7 +20,12 @@ META = {
              "valid input that gets past the header checks (reaches the "
              "per-channel block decoder / a JPEG whose header parses); "
              "distinct by the final byte string and parameters. Thorough "
-             "adds an atheris campaign (fuzz_c10.py)."),
+             "adds an atheris campaign (fuzz_c10.py)."
+             ' Also: valid files in the layouts other encoders produce (va'
+             'lues before table, one global table with per-block bit width'
+             's), valid_dataset: multi-scale datasets with per-scale block'
+             ' sizes read through PrecomputedIO, valid_huge: channels of 2'
+             '4+ MiB.'),
     "trusted_base": ["vlib/refs/cseg_spec.py encoder for alternative valid "
                      "layouts", "Pillow as JPEG writer"],
     "assumptions": ["a watchdog of 30 s decides 'hangs' (normal cases take "
